@@ -70,5 +70,11 @@ CLAIMS["C04"] = {
     "note": "Repaired in /repo: D2 (offset overflow), D3 (time span resolution), D4 (u16 overflow), D5 (state at MAX), D22 (bound range). Cannot exhibit: stack exhaustion (recursive union/addition), allocation failure, panics inside dependencies (tz lookup, solar computation) other than by running them. Not yet proved: absence of .error in scheduleAt/nextChangeHint under ParserWF (remaining sites: zero step, nth index — excluded by the parser).",
     "technique": "Lean 4 totality theorems on a model with explicit panic outcomes + catch_unwind harness on extremes + correspondence",
 }
+CLAIMS["C09"] = {
+    "text": "Lean theorems about a zone model (finite transition table) for every well-formed table: naive/datetime laws (valid, ambiguous -> later, gap -> first valid instant), termination and no panic of the retry loop, bounds never go backwards, and localized state/next_change/iter_range = the NoLocation evaluation at the wall-clock time with results mapped back by datetime — the input's own zone is irrelevant. Tie to the code: transition tables extracted from chrono-tz travel with every operation; the clauses are evaluated on the implementation's instants and the localized results are compared with the implementation's own NoLocation run.",
+    "design_ref": "§5 C09",
+    "note": "Repaired in /repo: state during the minute before clocks are set back (b0d5731), datetime overshooting gaps that do not end on a whole minute (walk-back). Open: zone-not-ok (a gap directly followed by a fold, e.g. Europe/Lisbon 1992: result one hour after the first valid instant); the empty interval from a local span inside a gap is C02's clause (D16, open there). Cannot exhibit: the correctness of the tz database itself.",
+    "technique": "Lean 4 theorems on a transition-table zone model + correspondence with chrono-tz tables + clauses evaluated on the implementation's instants",
+}
 ALL = [f"C{i:02d}" for i in range(1, 21)]
 NOT_APPLICABLE = {p: PENDING for p in ALL if p not in CLAIMS}
